@@ -241,7 +241,39 @@ def run(tier, seed, only=None):
                     for k in range(3):
                         obs.append(oblig.Ob("Rotate keeps the reference axis [%d,%d]" % (j, k), lhs=rap * out[nx - 1, j, k] + (ONE - rap) * out[0, j, k], rhs=refa[j, k],
                                             assume=ma + rap_assume, meta={"family": "twist acts about the reference axis", "idx": [0, j, k]}))
-                run_obligations(rep, "Rotate effect[%s]" % cn, obs, timeout, levels=(1, 2), fixed=fixed, family=lambda ob: "Rotate: " + ob.meta["family"])
+                    # the rotation follows the local dihedral: a twisted flat chord stays perpendicular to the reference-axis
+                    # segment next to it (towards the tip; at the root: to the spanwise direction)
+                    if j == root:
+                        seg = (ZERO, ONE, ZERO)
+                    else:
+                        a_, b_ = (j, j + 1) if j < root else (j - 1, j)
+                        seg = tuple(refa[b_, k] - refa[a_, k] for k in range(3))
+                    for i in range(nx):
+                        dot = sum(((out[i, j, k] - refa[j, k]) * seg[k] for k in (1, 2)), ZERO)
+                        obs.append(oblig.Ob("Rotate: twisted chord point [%d,%d] stays in the plane normal to the local axis segment" % (i, j), lhs=dot, rhs=ZERO,
+                                            assume=ma + rap_assume, meta={"family": "twist acts about the (dihedral-following) reference axis: flat chords stay normal to the local axis segment",
+                                                                          "idx": [i, j, 0], "perp": [j, j if j == root else a_, j if j == root else b_]}))
+
+                def eff_rp(ob, env, mm=mm, symm=symm, shp=shp, ny=ny, nx=nx):
+                    env = model.FillEnv(env)
+                    mv = num_inputs({"m": mm}, env)["m"]
+                    r = float(env["ref_axis_pos"])
+                    twv = np.array([float(env["twist[%d]" % j]) for j in range(ny)])
+                    real = SymComp(G, "Rotate", val=np.zeros(ny), mesh_shape=shp, symmetry=symm, ref_axis_pos=r).real({"twist": twv, "in_mesh": mv})["mesh"]
+                    rin, rout = r * mv[-1] + (1 - r) * mv[0], r * real[-1] + (1 - r) * real[0]
+                    i, j, k = ob.meta["idx"]
+                    if "perp" in ob.meta:
+                        _, a_, b_ = ob.meta["perp"]
+                        seg = np.array([0.0, 1.0, 0.0]) if a_ == b_ else rin[b_] - rin[a_]
+                        got = float(np.dot((real[i, j] - rin[j])[1:], seg[1:]))
+                        scale = np.linalg.norm(real[i, j] - rin[j]) * np.linalg.norm(seg[1:]) + 1e-300
+                        return abs(got) > 1e-7 * max(1.0, scale), "Rotate: (mesh[%d,%d] - axis) . local axis segment = %.9g (should be 0)" % (i, j, got)
+                    if "chord length" in ob.meta["family"]:
+                        ci, co = np.sum((mv[-1, j] - mv[0, j]) ** 2), np.sum((real[-1, j] - real[0, j]) ** 2)
+                        return model.differs(ci, co, 1e-7), "Rotate: squared chord %d before %.9g, after %.9g" % (j, ci, co)
+                    return model.differs(rout[j, k], rin[j, k], 1e-7), "Rotate: reference axis[%d,%d] before %.9g, after %.9g" % (j, k, rin[j, k], rout[j, k])
+
+                run_obligations(rep, "Rotate effect[%s]" % cn, obs, timeout, levels=(1, 2), fixed=fixed, family=lambda ob: "Rotate: " + ob.meta["family"], replay=eff_rp)
     group_chain(rep, tier, timeout)
     group_defaults(rep, tier, timeout)
     geometry_group_level(rep, tier, timeout)
